@@ -1,5 +1,6 @@
 from __future__ import annotations
 
+import copy
 import re
 from functools import total_ordering
 from typing import Any
@@ -32,7 +33,9 @@ class Base(str):
         return str(self) < str(other)
 
     def __deepcopy__(self, memo: dict[str, Any] | None = None) -> Self:
-        return self.__class__(str(self))
+        # The objects are immutable string values: a shallow copy is a deep copy. Going through the
+        # constructor would validate again and fail for objects created with `allow_invalid=True`.
+        return copy.copy(self)
 
     @property
     def compact(self) -> str:
